@@ -21,7 +21,11 @@ RawU == <<2, AffineKV(MkClamped(2, <<Half>>, <<1>>), RI(3), RI(0))>>
 RawV == <<1, AffineKV(MkClamped(1, <<Half>>, <<1>>), RI(2), RI(-1))>>
 RawW == <<1, AffineKV(MkClamped(1, <<Half>>, <<0>>), R(1,2), RI(4))>>
 RawSet == IF SurfMode = 0 THEN {} ELSE Surfaces({RawU}, {RawV}, {3}, BOOLEAN, Seed) \cup Volumes({RawV}, {RawU}, {RawW}, {FALSE}, Seed)
-MCShapes == CurveSet \cup SurfSet \cup VolSet \cup RawSet
+\* the value 0 strictly inside the range (and a knot at 0) in every branch: curve, surface u, volume v and w
+RawZ == <<2, AffineKV(MkClamped(2, <<R(1,4), Half>>, <<1, 1>>), RI(4), RI(-2))>>
+ZeroSet == Curves({RawZ}, {2}, BOOLEAN, Seed) \cup
+           (IF SurfMode = 0 THEN {} ELSE Surfaces({RawV}, {RawU}, {3}, {FALSE}, Seed) \cup Volumes({RawW}, {RawV}, {RawU}, {FALSE}, Seed) \cup Volumes({RawW}, {RawU}, {RawV}, {FALSE}, Seed))
+MCShapes == CurveSet \cup SurfSet \cup VolSet \cup RawSet \cup ZeroSet
 DepthOf(s) == IF PDim(s) = 1 THEN DepthCurve ELSE IF PDim(s) = 2 THEN DepthSurf ELSE DepthVol
 
 Next == /\ Len(hist) < DepthOf(sh0)
